@@ -622,6 +622,12 @@ func TestReplay(t *testing.T) {
 		t.Fatal(err)
 	}
 	switch cf.Sub {
+	case "cli":
+		var c CLICase
+		if err := json.Unmarshal(cf.Case, &c); err != nil {
+			t.Fatal(err)
+		}
+		checkCLI(t, c)
 	case "parse":
 		var c ParseCase
 		if err := json.Unmarshal(cf.Case, &c); err != nil {
